@@ -210,6 +210,12 @@ Proof.
   intros Hx. unfold I.JbWrapper, I.JfWrapper. destruct (Rle_dec 0 x); [|lra].
   repeat split. intros y Hy. assert (0 < y ^ 2) by (simpl; nra). lra.
 Qed.
+(** the dispatcher of _functionImplementation (scalar branch; the generator checks that the
+    array branch applies the same expression to every element) adds nothing to `wrapper` *)
+Lemma dispatcher_Jb x : I.JbEval e x = I.JbWrapper e x.
+Proof. unfold I.JbEval. cbv zeta. destruct (I.JbWrapper e x). reflexivity. Qed.
+Lemma dispatcher_Jf x : I.JfEval e x = I.JfWrapper e x.
+Proof. unfold I.JfEval. cbv zeta. destruct (I.JfWrapper e x). reflexivity. Qed.
 End Integrands.
 
 (** * 3. the one-loop thermal sum *)
@@ -329,6 +335,105 @@ Proof.
     { eapply Rle_trans; [apply Rabs_triang|]. lra. }
     assert (0 < / (2 * PI * PI)) by (apply Rinv_0_lt_compat; assumption).
     apply Rmult_le_compat_r; [lra|]. apply Rmult_le_compat_r; assumption.
+Qed.
+
+(** an ARRAY of temperatures (the `ndim > 0` branch, generated separately): the result is the
+    list of the scalar results, the raise / abs decisions being those of the (T-independent)
+    masses *)
+Theorem thermal_sum_array_form opt mB nB mF nF Ts :
+  S.potentialOneLoopThermalArr e opt mB nB mF nF Ts =
+  match opt with
+  | S.ABS_ARGUMENT => Some (map (thermal_value (map Rabs mB) nB (map Rabs mF) nF) Ts)
+  | S.PRINCIPAL_PART => Some (map (thermal_value mB nB mF nF) Ts)
+  | S.ABS_RESULT => Some (if has_negative mB mF
+                          then map (fun T => Rabs (thermal_value mB nB mF nF T)) Ts
+                          else map (thermal_value mB nB mF nF) Ts)
+  | S.ERROR => if has_negative mB mF then None else Some (map (thermal_value mB nB mF nF) Ts)
+  end.
+Proof.
+  assert (K : forall a b,
+    map (fun t => t / (2 * PI * PI))
+      (zipR (fun p q => p * q)
+         (zipR (fun p q => p + q)
+            (map sumR (map (zipR (fun p q => p * q) nB) (map (map fst)
+               (map (map (S.Jb e)) (map (fun t => map (fun m => m / t) a)
+                  (map (fun t => t + eps) (map (fun t => t ^ 2) Ts)))))))
+            (map sumR (map (zipR (fun p q => p * q) nF) (map (map fst)
+               (map (map (S.Jf e)) (map (fun t => map (fun m => m / t) b)
+                  (map (fun t => t + eps) (map (fun t => t ^ 2) Ts))))))))
+         (map (fun t => t ^ 4) Ts))
+    = map (thermal_value a nB b nF) Ts).
+  { intros a b. rewrite !map_map. rewrite !zipR_map_same. rewrite map_map.
+    apply map_ext. intros T. unfold thermal_value. rewrite !map_map. reflexivity. }
+  unfold S.potentialOneLoopThermalArr, has_negative.
+  destruct opt; cbn [S.EImaginaryOption_eq_dec S.EImaginaryOption_rec S.EImaginaryOption_rect
+                     sumbool_rec sumbool_rect]; cbv zeta; rewrite K.
+  - destruct (_ || _); reflexivity.
+  - assert (H : existsb (fun m => if Rlt_dec m 0 then true else false) (map Rabs mB) ||
+               existsb (fun m => if Rlt_dec m 0 then true else false) (map Rabs mF) = false).
+    { rewrite !existsb_neg_false by apply Forall_abs_nonneg. reflexivity. }
+    rewrite H. reflexivity.
+  - destruct (_ || _); [rewrite map_map|]; reflexivity.
+  - destruct (_ || _); reflexivity.
+Qed.
+
+(** array and scalar calls agree element by element *)
+Corollary array_is_map_of_scalar opt mB nB mF nF Ts i T :
+  nth_error Ts i = Some T ->
+  match S.potentialOneLoopThermalArr e opt mB nB mF nF Ts,
+        S.potentialOneLoopThermal e opt mB nB mF nF T with
+  | Some l, Some v => nth_error l i = Some v
+  | None, None => True
+  | _, _ => False
+  end.
+Proof.
+  intros H. rewrite thermal_sum_array_form, thermal_sum_form.
+  destruct opt; try destruct (has_negative mB mF); try exact I;
+    erewrite map_nth_error by exact H; reflexivity.
+Qed.
+
+(** continuity in the masses: if Re Jb, Re Jf are L-Lipschitz (validated numerically; true with
+    L ~ 1 away from the branch points), the thermal sum moves by at most
+    T^4/(2 pi^2) L/(T^2+eps) sum_i |n_i| |m_i - m_i'| *)
+Theorem mass_lipschitz mB mB' nB mF mF' nF T L :
+  (forall x y, Rabs (fst (S.Jb e x) - fst (S.Jb e y)) <= L * Rabs (x - y)) ->
+  (forall x y, Rabs (fst (S.Jf e x) - fst (S.Jf e y)) <= L * Rabs (x - y)) ->
+  length nB = length mB -> length mB = length mB' ->
+  length nF = length mF -> length mF = length mF' ->
+  Rabs (thermal_value mB nB mF nF T - thermal_value mB' nB mF' nF T) <=
+  T ^ 4 / (2 * PI * PI) * (L / (T ^ 2 + eps)) *
+  (sumR (zipR (fun p q => p * q) (map Rabs nB) (map Rabs (zipR (fun p q => p - q) mB mB'))) +
+   sumR (zipR (fun p q => p * q) (map Rabs nF) (map Rabs (zipR (fun p q => p - q) mF mF')))).
+Proof.
+  intros Lb Lf B1 B2 F1 F2.
+  assert (He : 0 < T ^ 2 + eps).
+  { assert (0 <= T ^ 2) by (simpl; nra). pose proof eps_pos. lra. }
+  assert (scaled : forall (J : R -> R * R),
+    (forall x y, Rabs (fst (J x) - fst (J y)) <= L * Rabs (x - y)) ->
+    forall x y, Rabs ((fun m => fst (J (m / (T ^ 2 + eps)))) x -
+                      (fun m => fst (J (m / (T ^ 2 + eps)))) y)
+                <= L / (T ^ 2 + eps) * Rabs (x - y)).
+  { intros J HJ x y. cbv beta. eapply Rle_trans; [apply HJ|].
+    replace (x / (T ^ 2 + eps) - y / (T ^ 2 + eps)) with ((x - y) * / (T ^ 2 + eps))
+      by (field; lra).
+    rewrite Rabs_mult, (Rabs_pos_eq (/ (T ^ 2 + eps)))
+      by (left; apply Rinv_0_lt_compat; lra).
+    unfold Rdiv. right. ring. }
+  pose proof (sumR_zip_lipschitz _ _ nB mB mB' (scaled _ Lb) B1 B2) as Db.
+  pose proof (sumR_zip_lipschitz _ _ nF mF mF' (scaled _ Lf) F1 F2) as Df.
+  unfold thermal_value.
+  set (a := sumR (zipR _ nB (map _ mB))) in *. set (a' := sumR (zipR _ nB (map _ mB'))) in *.
+  set (b := sumR (zipR _ nF (map _ mF))) in *. set (b' := sumR (zipR _ nF (map _ mF'))) in *.
+  set (sb := sumR (zipR _ (map Rabs nB) _)) in *. set (sf := sumR (zipR _ (map Rabs nF) _)) in *.
+  assert (HT : 0 <= T ^ 4) by (replace (T ^ 4) with ((T ^ 2) ^ 2) by ring; apply pow2_ge_0).
+  assert (HP : 0 < / (2 * PI * PI)) by (apply Rinv_0_lt_compat; pose proof PI_RGT_0; nra).
+  replace ((a + b) * T ^ 4 / (2 * PI * PI) - (a' + b') * T ^ 4 / (2 * PI * PI))
+    with (((a - a') + (b - b')) * (T ^ 4 * / (2 * PI * PI))) by (unfold Rdiv; ring).
+  rewrite Rabs_mult, (Rabs_pos_eq (T ^ 4 * / _)) by nra.
+  assert (Hab : Rabs (a - a' + (b - b')) <= L / (T ^ 2 + eps) * (sb + sf)).
+  { eapply Rle_trans; [apply Rabs_triang|]. lra. }
+  assert (0 <= T ^ 4 * / (2 * PI * PI)) by nra.
+  unfold Rdiv in *. nra.
 Qed.
 
 (** the hypotheses of the two theorems are satisfiable (e.g. constant J) *)
@@ -553,6 +658,141 @@ Theorem table_smooth_Jf :
   table_rough region_Jf_low (2 * (U / 10 ^ 3)) (3 * (U / 10)) JfRows.
 Proof. split; [apply smooth_sound; [lia|lia|]|apply rough_sound]; vm_compute; reflexivity. Qed.
 
+(** ** 4.4b the same with band-wise constants.  The x-axis is cut into geometric bands (ratio
+    1.25, signed); in each band |d4| of both columns is bounded by twice the largest value found
+    in the shipped file (never below the 2e-10 noise floor).  Calibrated on the shipped files, as
+    the design allows; a regenerated table with different quadrature noise may need new numbers.
+    An isolated node error delta changes the fourth differences centred on the node and its
+    neighbours by 6, 4, 4 delta, so it is excluded above (bound + actual)/6 <= bound/4:
+    2e-7 at x = 3.4, 4e-8 at x = 10, 5e-11 beyond x = 55. *)
+Definition band := (Z * Z * Z * Z)%type.      (* lo <= x_c < hi, bound real, bound imaginary *)
+Definition bands_Jb : list (Z * Z * Z * Z) := [
+  (-21000000000000000000000000000000, -18189892802450229709035222052067, 41000000000000000000000, 45000000000000000000000);
+  (-18189892802450229709035222052067, -14551912568306010928961748633879, 22000000000000000000000, 79000000000000000000000);
+  (-14551912568306010928961748633879, -11641532756489493201483312731767, 67000000000000000000000, 140000000000000000000000);
+  (-11641532756489493201483312731767, -9313225058004640371229698375870, 130000000000000000000000, 240000000000000000000000);
+  (-9313225058004640371229698375870, -7450581395348837209302325581395, 230000000000000000000000, 430000000000000000000000);
+  (-7450581395348837209302325581395, -5960465116279069767441860465116, 360000000000000000000000, 720000000000000000000000);
+  (-5960465116279069767441860465116, -4768370607028753993610223642172, 570000000000000000000000, 1300000000000000000000000);
+  (-4768370607028753993610223642172, -3814696485623003194888178913738, 890000000000000000000000, 2200000000000000000000000);
+  (-3814696485623003194888178913738, -3051756007393715341959334565619, 1500000000000000000000000, 3900000000000000000000000);
+  (-3051756007393715341959334565619, -2441406250000000000000000000000, 2300000000000000000000000, 6800000000000000000000000);
+  (-2441406250000000000000000000000, -1953125000000000000000000000000, 3300000000000000000000000, 11000000000000000000000000);
+  (-1953125000000000000000000000000, -1562500000000000000000000000000, 5100000000000000000000000, 19000000000000000000000000);
+  (-1562500000000000000000000000000, -1250000000000000000000000000000, 7700000000000000000000000, 32000000000000000000000000);
+  (-1250000000000000000000000000000, -1000000000000000000000000000000, 9000000000000000000000000, 39000000000000000000000000);
+  (1000000000000000000000000000000, 1250000000000000000000000000000, 31000000000000000000000000, 200000000000000000000);
+  (1250000000000000000000000000000, 1562500000000000000000000000000, 25000000000000000000000000, 200000000000000000000);
+  (1562500000000000000000000000000, 1953125000000000000000000000000, 14000000000000000000000000, 200000000000000000000);
+  (1953125000000000000000000000000, 2441406250000000000000000000000, 7600000000000000000000000, 200000000000000000000);
+  (2441406250000000000000000000000, 3051756007393715341959334565619, 4600000000000000000000000, 200000000000000000000);
+  (3051756007393715341959334565619, 3814696485623003194888178913738, 2500000000000000000000000, 200000000000000000000);
+  (3814696485623003194888178913738, 4768370607028753993610223642172, 1300000000000000000000000, 200000000000000000000);
+  (4768370607028753993610223642172, 5960465116279069767441860465116, 700000000000000000000000, 200000000000000000000);
+  (5960465116279069767441860465116, 7450581395348837209302325581395, 360000000000000000000000, 200000000000000000000);
+  (7450581395348837209302325581395, 9313225058004640371229698375870, 180000000000000000000000, 200000000000000000000);
+  (9313225058004640371229698375870, 11641532756489493201483312731767, 91000000000000000000000, 200000000000000000000);
+  (11641532756489493201483312731767, 14551912568306010928961748633879, 45000000000000000000000, 200000000000000000000);
+  (14551912568306010928961748633879, 18189892802450229709035222052067, 22000000000000000000000, 200000000000000000000);
+  (18189892802450229709035222052067, 22737362637362637362637362637362, 9600000000000000000000, 200000000000000000000);
+  (22737362637362637362637362637362, 28421708185053380782918149466192, 4300000000000000000000, 200000000000000000000);
+  (28421708185053380782918149466192, 35527139874739039665970772442588, 1900000000000000000000, 200000000000000000000);
+  (35527139874739039665970772442588, 44408921933085501858736059479553, 680000000000000000000, 200000000000000000000);
+  (44408921933085501858736059479553, 55511152416356877323420074349442, 250000000000000000000, 200000000000000000000);
+  (55511152416356877323420074349442, 69388944723618090452261306532663, 200000000000000000000, 200000000000000000000);
+  (69388944723618090452261306532663, 86736175115207373271889400921658, 200000000000000000000, 200000000000000000000);
+  (86736175115207373271889400921658, 108420219244823386114494518879415, 200000000000000000000, 200000000000000000000);
+  (108420219244823386114494518879415, 135525270758122743682310469314079, 200000000000000000000, 200000000000000000000);
+  (135525270758122743682310469314079, 169406593406593406593406593406593, 200000000000000000000, 200000000000000000000);
+  (169406593406593406593406593406593, 211758241758241758241758241758241, 200000000000000000000, 200000000000000000000);
+  (211758241758241758241758241758241, 264697796432318992654774396642182, 200000000000000000000, 200000000000000000000);
+  (264697796432318992654774396642182, 330872246696035242290748898678414, 200000000000000000000, 200000000000000000000);
+  (330872246696035242290748898678414, 413590308370044052863436123348017, 200000000000000000000, 200000000000000000000);
+  (413590308370044052863436123348017, 516987885462555066079295154185022, 200000000000000000000, 200000000000000000000);
+  (516987885462555066079295154185022, 646234856535600425079702444208289, 200000000000000000000, 200000000000000000000);
+  (646234856535600425079702444208289, 807793565683646112600536193029490, 200000000000000000000, 200000000000000000000);
+  (807793565683646112600536193029490, 1001000000000000000000000000000000, 200000000000000000000, 200000000000000000000)].
+Definition bands_Jf : list (Z * Z * Z * Z) := [
+  (-7450581395348837209302325581395, -5960465116279069767441860465116, 7100000000000000000000000, 200000000000000000000);
+  (-5960465116279069767441860465116, -4768370607028753993610223642172, 3800000000000000000000000, 200000000000000000000);
+  (-4768370607028753993610223642172, -3814696485623003194888178913738, 1500000000000000000000000, 200000000000000000000);
+  (-3814696485623003194888178913738, -3051756007393715341959334565619, 450000000000000000000000, 200000000000000000000);
+  (-3051756007393715341959334565619, -2441406250000000000000000000000, 1400000000000000000000000, 200000000000000000000);
+  (-2441406250000000000000000000000, -1953125000000000000000000000000, 2500000000000000000000000, 200000000000000000000);
+  (-1953125000000000000000000000000, -1562500000000000000000000000000, 4500000000000000000000000, 200000000000000000000);
+  (-1562500000000000000000000000000, -1250000000000000000000000000000, 7100000000000000000000000, 200000000000000000000);
+  (-1250000000000000000000000000000, -1000000000000000000000000000000, 8500000000000000000000000, 200000000000000000000);
+  (1000000000000000000000000000000, 1250000000000000000000000000000, 8900000000000000000000000, 200000000000000000000);
+  (1250000000000000000000000000000, 1562500000000000000000000000000, 7600000000000000000000000, 200000000000000000000);
+  (1562500000000000000000000000000, 1953125000000000000000000000000, 4900000000000000000000000, 200000000000000000000);
+  (1953125000000000000000000000000, 2441406250000000000000000000000, 3100000000000000000000000, 200000000000000000000);
+  (2441406250000000000000000000000, 3051756007393715341959334565619, 2100000000000000000000000, 200000000000000000000);
+  (3051756007393715341959334565619, 3814696485623003194888178913738, 1300000000000000000000000, 200000000000000000000);
+  (3814696485623003194888178913738, 4768370607028753993610223642172, 730000000000000000000000, 200000000000000000000);
+  (4768370607028753993610223642172, 5960465116279069767441860465116, 440000000000000000000000, 200000000000000000000);
+  (5960465116279069767441860465116, 7450581395348837209302325581395, 250000000000000000000000, 200000000000000000000);
+  (7450581395348837209302325581395, 9313225058004640371229698375870, 140000000000000000000000, 200000000000000000000);
+  (9313225058004640371229698375870, 11641532756489493201483312731767, 74000000000000000000000, 200000000000000000000);
+  (11641532756489493201483312731767, 14551912568306010928961748633879, 39000000000000000000000, 200000000000000000000);
+  (14551912568306010928961748633879, 18189892802450229709035222052067, 20000000000000000000000, 200000000000000000000);
+  (18189892802450229709035222052067, 22737362637362637362637362637362, 9000000000000000000000, 200000000000000000000);
+  (22737362637362637362637362637362, 28421708185053380782918149466192, 4100000000000000000000, 200000000000000000000);
+  (28421708185053380782918149466192, 35527139874739039665970772442588, 1900000000000000000000, 200000000000000000000);
+  (35527139874739039665970772442588, 44408921933085501858736059479553, 670000000000000000000, 200000000000000000000);
+  (44408921933085501858736059479553, 55511152416356877323420074349442, 250000000000000000000, 200000000000000000000);
+  (55511152416356877323420074349442, 69388944723618090452261306532663, 200000000000000000000, 200000000000000000000);
+  (69388944723618090452261306532663, 86736175115207373271889400921658, 200000000000000000000, 200000000000000000000);
+  (86736175115207373271889400921658, 108420219244823386114494518879415, 200000000000000000000, 200000000000000000000);
+  (108420219244823386114494518879415, 135525270758122743682310469314079, 200000000000000000000, 200000000000000000000);
+  (135525270758122743682310469314079, 169406593406593406593406593406593, 200000000000000000000, 200000000000000000000);
+  (169406593406593406593406593406593, 211758241758241758241758241758241, 200000000000000000000, 200000000000000000000);
+  (211758241758241758241758241758241, 264697796432318992654774396642182, 200000000000000000000, 200000000000000000000);
+  (264697796432318992654774396642182, 330872246696035242290748898678414, 200000000000000000000, 200000000000000000000);
+  (330872246696035242290748898678414, 413590308370044052863436123348017, 200000000000000000000, 200000000000000000000);
+  (413590308370044052863436123348017, 516987885462555066079295154185022, 200000000000000000000, 200000000000000000000);
+  (516987885462555066079295154185022, 646234856535600425079702444208289, 200000000000000000000, 200000000000000000000);
+  (646234856535600425079702444208289, 807793565683646112600536193029490, 200000000000000000000, 200000000000000000000);
+  (807793565683646112600536193029490, 1001000000000000000000000000000000, 200000000000000000000, 200000000000000000000)].
+
+Definition in_band (xc : Z) (b : band) : bool :=
+  let '(lo, hi, _, _) := b in ((lo <=? xc) && (xc <? hi))%bool.
+Definition table_bands (region : Z -> Z -> bool) (bands : list band) (rows : list row) : Prop :=
+  forall i a b c d e t, skipn i rows = a :: b :: c :: d :: e :: t -> region (rx a) (rx e) = true ->
+    (exists bd, In bd bands /\ in_band (rx c) bd = true) /\
+    (forall lo hi Bre Bim, In (lo, hi, Bre, Bim) bands -> lo <= rx c < hi ->
+       Z.abs (d4 (rre a) (rre b) (rre c) (rre d) (rre e)) <= Bre /\
+       Z.abs (d4 (rim a) (rim b) (rim c) (rim d) (rim e)) <= Bim).
+Definition bands_win (region : Z -> Z -> bool) (bands : list band) (l : list row) : bool :=
+  match l with
+  | a :: b :: c :: d :: e :: _ =>
+      if region (rx a) (rx e) then
+        let dre := Z.abs (d4 (rre a) (rre b) (rre c) (rre d) (rre e)) in
+        let dim := Z.abs (d4 (rim a) (rim b) (rim c) (rim d) (rim e)) in
+        let xc := rx c in
+        (existsb (in_band xc) bands &&
+         forallb (fun bd : band => let '(lo, hi, Bre, Bim) := bd in
+                    if ((lo <=? xc) && (xc <? hi))%bool
+                    then ((dre <=? Bre) && (dim <=? Bim))%bool else true) bands)%bool
+      else true
+  | _ => true
+  end.
+Lemma bands_sound region bands rows :
+  all_tails (bands_win region bands) rows = true -> table_bands region bands rows.
+Proof.
+  intros H i a b c d e t E R. pose proof (all_tails_sound _ _ H i) as C. rewrite E in C.
+  unfold bands_win in C. rewrite R in C. cbv zeta in C.
+  apply andb_true_iff in C. destruct C as [C1 C2]. split.
+  - apply existsb_exists in C1. destruct C1 as [bd [I1 I2]]. exists bd. split; assumption.
+  - intros lo hi Bre Bim Hin [L1 L2].
+    pose proof (forallb_In _ _ C2 _ Hin) as C. cbv beta iota in C.
+    apply Z.leb_le in L1. apply Z.ltb_lt in L2. rewrite L1, L2 in C. simpl in C.
+    apply andb_true_iff in C. destruct C as [A1 A2]. split; apply Z.leb_le; assumption.
+Qed.
+Theorem table_bands_Jb : table_bands region_Jb bands_Jb JbRows.
+Proof. apply bands_sound. vm_compute. reflexivity. Qed.
+Theorem table_bands_Jf : table_bands region_Jf bands_Jf JfRows.
+Proof. apply bands_sound. vm_compute. reflexivity. Qed.
+
 (** ** 4.5 the imaginary columns against the first-sheet closed forms (real-number statements):
     Im Jb = pi (c^3/6 - x^2/32), c = sqrt(-x), for EVERY negative row of the Jb file (all of them
     have x >= -20 > -4 pi^2), and Im Jf = pi x^2/32 for the rows with -9.8 <= x < 0 (> -pi^2),
@@ -596,6 +836,63 @@ Proof.
   - apply forwards_all_sound. vm_compute. reflexivity.
   - vm_compute. tauto.
 Qed.
+
+(** * 6. the shipped path: EffectivePotentialNoResum(useDefaultInterpolation=True).  Generated facts:
+    the extrapolation types it sets on the two tables.  Hand-written (two lines, compared with the
+    running object by the harness; the class itself belongs to C18): what
+    InterpolatableFunction._evaluateOutOfBounds returns beyond an end of the table. *)
+Definition beyond_table (ty : Ctors.EExtrapolationType) (edge : R) (direct spline : R -> R)
+  (x : R) : option R :=
+  match ty with
+  | Ctors.XNONE => Some (direct x)
+  | Ctors.XERROR => None
+  | Ctors.XCONSTANT => Some edge
+  | Ctors.XFUNCTION => Some (spline x)
+  end.
+
+Lemma last_row_small rows r : table_shape rows -> table_grid rows ->
+  nth_error rows 9999 = Some r -> (Rabs (IZR (rre r) / IZR U) <= / 10000000)%R.
+Proof.
+  intros [Hneg [Hs _]] [_ [_ [Hx [_ _]]]] Hr.
+  assert (Hin : In r rows) by (eapply nth_error_In; exact Hr).
+  rewrite Hr in Hx. simpl in Hx. injection Hx as Hx.
+  assert (Hpos : 0 < rx r) by (rewrite Hx; unfold XMAX; pose proof U_pos; lia).
+  assert (L : - (U / 10 ^ 7) <= rre r)
+    by (apply Hs; [exact Hin|rewrite Hx; unfold XMAX; pose proof U_pos; lia]).
+  assert (N : rre r <= 0) by (apply Z.lt_le_incl, Hneg; assumption).
+  apply IZR_le in L, N. rewrite opp_IZR in L.
+  assert (E : U / 10 ^ 7 = 100000000000000000000000) by (vm_compute; reflexivity).
+  rewrite E in L.
+  assert (E' : (IZR 100000000000000000000000 = IZR U * / 10000000)%R) by (unfold U; lra).
+  rewrite E' in L.
+  pose proof IZR_U_pos as HU.
+  apply Rabs_le. unfold Rdiv. split.
+  - apply Rmult_le_reg_r with (IZR U); [lra|]. rewrite Rmult_assoc, Rinv_l by lra. lra.
+  - apply Rmult_le_reg_r with (IZR U); [lra|]. rewrite Rmult_assoc, Rinv_l by lra. lra.
+Qed.
+
+(** heavy species stay suppressed beyond the upper end of the tables on the shipped path: the
+    upper extrapolation is CONSTANT, so the value is the last row, and |last row| <= 1e-7.  (With
+    FUNCTION the cubic of the last segment would be extrapolated: no bound.)  Below the lower end
+    the type is CONSTANT as well: the shipped path answers J(-20), which is NOT the integral --
+    recorded by the harness as known finding shipped-path-constant-below-table. *)
+Theorem shipped_path_beyond_table : forall direct spline (x : R) rb rf,
+  nth_error JbRows 9999 = Some rb -> nth_error JfRows 9999 = Some rf ->
+  (exists vb, beyond_table Ctors.DefaultInterp_Jb_upper (IZR (rre rb) / IZR U) direct spline x
+              = Some vb /\ Rabs vb <= / 10000000)%R /\
+  (exists vf, beyond_table Ctors.DefaultInterp_Jf_upper (IZR (rre rf) / IZR U) direct spline x
+              = Some vf /\ Rabs vf <= / 10000000)%R /\
+  Ctors.DefaultInterp_Jb_lower = Ctors.XCONSTANT /\ Ctors.DefaultInterp_Jf_lower = Ctors.XCONSTANT /\
+  (* the settings are applied to a private copy, not to the module-level defaultIntegrals *)
+  Ctors.DefaultInterpAliasesGlobal = false.
+Proof.
+  intros direct spline x rb rf Hb Hf. repeat split.
+  - eexists. split; [reflexivity|].
+    exact (last_row_small _ _ table_shape_Jb table_grid_Jb Hb).
+  - eexists. split; [reflexivity|].
+    exact (last_row_small _ _ table_shape_Jf table_grid_Jf Hf).
+Qed.
+
 
 (** * obligations *)
 Local Open Scope R_scope.
@@ -677,6 +974,11 @@ Proof.
 Qed.
 Print Assumptions split_point.
 
+Theorem dispatcher_is_wrapper : forall (e : I.env) x,
+  I.JbEval e x = I.JbWrapper e x /\ I.JfEval e x = I.JfWrapper e x.
+Proof. intros e x. exact (conj (dispatcher_Jb e x) (dispatcher_Jf e x)). Qed.
+Print Assumptions dispatcher_is_wrapper.
+
 Theorem thermal_sum : forall (e : S.env) opt mB nB mF nF T,
   S.potentialOneLoopThermal e opt mB nB mF nF T =
   match opt with
@@ -688,6 +990,29 @@ Theorem thermal_sum : forall (e : S.env) opt mB nB mF nF T,
   end.
 Proof. exact thermal_sum_form. Qed.
 Print Assumptions thermal_sum.
+
+Theorem thermal_sum_array : forall (e : S.env) opt mB nB mF nF Ts i T,
+  nth_error Ts i = Some T ->
+  match S.potentialOneLoopThermalArr e opt mB nB mF nF Ts,
+        S.potentialOneLoopThermal e opt mB nB mF nF T with
+  | Some l, Some v => nth_error l i = Some v
+  | None, None => True
+  | _, _ => False
+  end.
+Proof. exact array_is_map_of_scalar. Qed.
+Print Assumptions thermal_sum_array.
+
+Theorem continuous_in_masses : forall (e : S.env) mB mB' nB mF mF' nF T L,
+  (forall x y, Rabs (fst (S.Jb e x) - fst (S.Jb e y)) <= L * Rabs (x - y)) ->
+  (forall x y, Rabs (fst (S.Jf e x) - fst (S.Jf e y)) <= L * Rabs (x - y)) ->
+  length nB = length mB -> length mB = length mB' ->
+  length nF = length mF -> length mF = length mF' ->
+  Rabs (thermal_value e mB nB mF nF T - thermal_value e mB' nB mF' nF T) <=
+  T ^ 4 / (2 * PI * PI) * (L / (T ^ 2 + S.SMALL_NUMBER)) *
+  (sumR (zipR (fun p q => p * q) (map Rabs nB) (map Rabs (zipR (fun p q => p - q) mB mB'))) +
+   sumR (zipR (fun p q => p * q) (map Rabs nF) (map Rabs (zipR (fun p q => p - q) mF mF')))).
+Proof. exact mass_lipschitz. Qed.
+Print Assumptions continuous_in_masses.
 
 Theorem stefan_boltzmann_limit : forall (e : S.env) opt mB nB mF nF T,
   fst (S.Jb e 0) = - PI ^ 4 / 45 -> fst (S.Jf e 0) = - 7 * PI ^ 4 / 360 ->
@@ -712,6 +1037,8 @@ Print Assumptions heavy_mass_suppressed.
 
 Print Assumptions constructors_forward.
 
+Print Assumptions shipped_path_beyond_table.
+
 Theorem tables_grid : table_grid JbRows /\ table_grid JfRows.
 Proof. exact (conj table_grid_Jb table_grid_Jf). Qed.
 Print Assumptions tables_grid.
@@ -725,6 +1052,10 @@ Theorem tables_imag_closed_form :
   imag_closed_Jb JbRows /\ imag_closed_Jf (-9800000000000000000000000000000) JfRows.
 Proof. exact (conj table_imag_closed_Jb table_imag_closed_Jf). Qed.
 Print Assumptions tables_imag_closed_form.
+Theorem tables_smooth_bands :
+  table_bands region_Jb bands_Jb JbRows /\ table_bands region_Jf bands_Jf JfRows.
+Proof. exact (conj table_bands_Jb table_bands_Jf). Qed.
+Print Assumptions tables_smooth_bands.
 Theorem tables_smooth :
   table_smooth region_Jb (10 ^ 8) (10 ^ 8) 200 JbRows /\
   table_smooth region_Jf (5 * 10 ^ 8) (10 ^ 3) 200 JfRows /\
